@@ -1,5 +1,5 @@
 (* C15 — A URL built for a named route is routed back to that route. Property theorems only. *)
-From Rux Require Import Base Str Rx Pattern Pat PatFacts Build Cache Table TableFacts PatTable SelectFacts BuildFacts.
+From Rux Require Import Base Str Rx Pattern Pat PatFacts Build Cache Table TableFacts PatTable SelectFacts BuildFacts RoundTrip BuildLink.
 
 (* For every pattern without optional parts and every assignment of values that satisfy the regexes of its
    variables (admissible), the path obtained by substituting the values matches the pattern, with a
@@ -49,6 +49,19 @@ Theorem C15_named_to_keeps : forall rt n rid m, m <> trim_space n ->
   assoc m (named (named_to rt n rid)) = assoc m (named rt).
 Proof. exact named_to_other. Qed.
 
+(* the string-level Build (one-pass replacement of the placeholder texts in the registered path, after repair F19) IS the
+   substitution of the caller's values - for arbitrary values, braces and other placeholders' texts included - on every
+   printable pattern without optional parts; hence the built path matches the pattern with exactly those values *)
+Theorem C15_build_is_subst : forall p (vals : list str),
+  ppat_wf p -> pp_opts p = [] -> NoDup (pnames (pp_req p)) -> List.length vals = List.length (vars (pp_req p)) ->
+  build_path (show_ppat p) (combine (map (fun n => braces n) (pnames (pp_req p))) vals) (var_texts (show_ppat p))
+  = subst_items (p_req (to_pat p)) vals.
+Proof. exact build_path_is_subst. Qed.
+Theorem C15_built_url_matches : forall p vals, ppat_wf p -> pp_opts p = [] -> NoDup (pnames (pp_req p)) ->
+  admissible (p_req (to_pat p)) vals ->
+  pat_den (to_pat p) (build_path (show_ppat p) (combine (map braces (pnames (pp_req p))) vals) (var_texts (show_ppat p))) vals.
+Proof. exact built_url_den. Qed.
+
 (* known finding K3 (not repaired): a trailing space is trimmed by lookup normalisation *)
 Definition k3_path : str := [47;112;47;123;110;125]%N.           (* /p/{n} *)
 Theorem C15_trailing_space_refuted :
@@ -76,3 +89,5 @@ Print Assumptions C15_legacy_F19_refuted.
 Print Assumptions C15_brace_value_one_pass.
 Print Assumptions C15_named_to.
 Print Assumptions C15_named_to_keeps.
+Print Assumptions C15_build_is_subst.
+Print Assumptions C15_built_url_matches.
